@@ -218,7 +218,7 @@ def c01(R):
             if np.abs(vn - vs).max() < 1e-13: break
             vs = vn
         def pvalue(pol): return np.linalg.solve(np.eye(N) - g * Pm[pol, np.arange(N), :], Rm[np.arange(N), pol])
-        for kind, cls, kw, bound in [("vi", VI, dict(convergence_test="span"), eps), ("pi", PI, dict(convergence_test="span", max_eval_iter=400), eps / g), ("sa", SA, dict(convergence_test="max_diff", max_batch_size=4, shuffle_states=True, random_seed=7), 2 * g * eps / (1 - g))]:
+        for kind, cls, kw, bound in [("vi", VI, dict(convergence_test="span"), eps), ("vi_md", VI, dict(convergence_test="max_diff"), 2 * eps), ("pi", PI, dict(convergence_test="span", max_eval_iter=400), eps / g), ("sa", SA, dict(convergence_test="max_diff", max_batch_size=4, shuffle_states=True, random_seed=7), 2 * g * eps / (1 - g))]:
             mk = lambda **extra: cls(Forest(S=9, r1=10.0, p=0.15), gamma=g, epsilon=eps, verbose=0, **kw, **extra)
             nstar = int(mk().solve(3000).info.iteration)
             for k in sorted({max(nstar - 1, 1), max(nstar // 2, 1)}):
@@ -228,6 +228,16 @@ def c01(R):
                 if int(st2.info.iteration) >= k + 3000: continue
                 gap = float((vs - pvalue(np.asarray(st2.policy)[:, 0])).max())
                 if not (gap <= bound * (1 + 1e-6) + 1e-9): R.fail("c01.policy_near_optimal_after_restore", f"a run restored at iteration k and continued to convergence returns a policy that misses the a-priori bound {bound:.3g}", inp, gap, bound)
+            # ... and a solver OBJECT that has already converged once, is rewound with load_checkpoint() to an early, unconverged step and solved again
+            # (convergence reported by that second call is a claim about the state it returns, like any other)
+            d = os.path.join(base, f"{kind}_rw"); s3 = mk(checkpoint_dir=d, checkpoint_frequency=1, max_checkpoints=nstar + 5, enable_async_checkpointing=False); s3.solve(3000)
+            inp = dict(problem="Forest(S=9,r1=10,p=0.15)", solver=kind, gamma=g, epsilon=eps, history="solve() to convergence; load_checkpoint(step=1); solve()", **{a_: b_ for a_, b_ in kw.items()}); R.case(("rewound", kind), inp)
+            s3.load_checkpoint(d, step=1); st3 = s3.solve(3000)
+            if int(st3.info.iteration) < 1 + 3000:
+                gap = float((vs - pvalue(np.asarray(st3.policy)[:, 0])).max())
+                if not (gap <= bound * (1 + 1e-6) + 1e-9): R.fail("c01.policy_near_optimal_after_restore", f"a converged solver rewound to step 1 with load_checkpoint() and solved again reports convergence with a policy that misses the a-priori bound {bound:.3g}", inp, gap, bound)
+                if kw.get("convergence_test") == "max_diff" and kind != "sa" and not (np.abs(np.asarray(st3.values) - vs).max() <= eps * (1 + 1e-6) + 1e-9):
+                    R.fail("c01.values_near_optimal_after_restore", "a converged solver rewound to step 1 with load_checkpoint() and solved again reports convergence with values further than epsilon from the optimal values", inp, float(np.abs(np.asarray(st3.values) - vs).max()), eps)
     finally:
         shutil.rmtree(base, ignore_errors=True)
     return R
